@@ -1,6 +1,9 @@
 use super::{Calculator, Checker, Controller, Rule};
 use crate::base::{BlockType, MetricEvent, StatNode, TokenResult};
+#[cfg(not(sentinel_verif))]
 use std::sync::{Arc, Weak};
+#[cfg(sentinel_verif)]
+use sentinel_verif_rt::sync::{Arc, Weak};
 
 /// Provide a determined threshold
 #[derive(Debug)]
